@@ -68,4 +68,13 @@ VARIANTS = [
     dict(name="twin: size table copied through a local", kind="twin", file=HG,
          old="        self.size_dict = {} if size_dict is None else dict(size_dict)",
          new="        sd = {} if size_dict is None else dict(size_dict)\n        self.size_dict = sd"),
+    dict(name="round3: compressed stats memoised in the root's info", kind="break",
+         edits=[("cotengra/core.py", "        hg = self.get_hypergraph(accel=\"auto\")\n\n        # conversion between tree nodes <-> hypergraph nodes during contraction",
+                 "        key = (\"compressed_stats\", chi, order, compress_late)\n        try:\n            return self.info[self.root][key]\n        except KeyError:\n            pass\n\n        hg = self.get_hypergraph(accel=\"auto\")\n\n        # conversion between tree nodes <-> hypergraph nodes during contraction"),
+                ("cotengra/core.py", "            tracker.update_post_step()\n\n        return tracker", "            tracker.update_post_step()\n\n        self.info[self.root][key] = tracker\n        return tracker")],
+         expect=("C20-FRESHSTATS", "compressed_contract_stats")),
+    dict(name="round3: search accumulators initialised in __init__ only", kind="break",
+         edits=[("cotengra/pathfinders/path_compressed_greedy.py", "        self.candidates = []\n        self.ssapath = []\n        self.hg = get_hypergraph(", "        self.hg = get_hypergraph("),
+                ("cotengra/pathfinders/path_compressed_greedy.py", "        self.gumbel = GumbelBatchedGenerator(seed)\n", "        self.gumbel = GumbelBatchedGenerator(seed)\n        self.candidates = []\n        self.ssapath = []\n")],
+         expect=("C20-RESET", "GreedyCompressed")),
 ]
